@@ -19,16 +19,16 @@ var (
 )
 
 type methodObs struct {
-	Name       string
-	Args       []string
-	ArgTypes   []string
-	Verb, URL  string
-	Second     string
-	Form       [][2]string
-	Query      [][2]string
-	ArrayBuf   bool
-	Return     string
-	Unparsed   string
+	Name      string
+	Args      []string
+	ArgTypes  []string
+	Verb, URL string
+	Second    string
+	Form      [][2]string
+	Query     [][2]string
+	ArrayBuf  bool
+	Return    string
+	Unparsed  string
 }
 
 func readAxios(text string) ([]methodObs, []string, []string) {
